@@ -33,6 +33,11 @@ pub struct C06Case {
     /// links are reported and share the ids of their targets while being hashed by another device's pool
     #[serde(default)]
     pub xdev_links: bool,
+    /// the roots are the directories `rK/a` only: same depth, same last name (disk1/photos and
+    /// disk2/photos); each gets two extra files, one content present under every root, one under
+    /// every second root
+    #[serde(default)]
+    pub twin_named: bool,
 }
 
 pub fn spell(base: &str, style: u8, tree: &Path) -> OsString {
@@ -81,8 +86,9 @@ fn case_strategy() -> BoxedStrategy<C06Case> {
                 proptest::collection::vec(0u8..9, nroots + 3),
                 proptest::collection::vec(0u8..9, nroots + 3),
                 prop::bool::weighted(0.2),
+                prop::bool::weighted(0.12),
             )
-                .prop_map(move |(tree, mut opts, extra, sp, alt, xdev_links)| {
+                .prop_map(move |(tree, mut opts, extra, sp, alt, xdev_links, twin_named)| {
                     opts.transform = None;
                     opts.max_prefix = None;
                     opts.max_suffix = None;
@@ -97,7 +103,13 @@ fn case_strategy() -> BoxedStrategy<C06Case> {
                         opts.follow_links = false;
                         opts.disk = 0;
                     }
-                    C06Case { tree, roots, opts, alt_spell: alt, xdev_links }
+                    let twin_named = twin_named && nroots >= 2 && !xdev_links;
+                    if twin_named {
+                        roots = (0..nroots).map(|r| RootArg { base: format!("{}/a", ROOT_NAMES[r]), spell: sp[r] }).collect();
+                        opts.isolate = true;
+                        opts.fix_isolate(nroots);
+                    }
+                    C06Case { tree, roots, opts, alt_spell: alt, xdev_links, twin_named }
                 })
         })
         .boxed()
@@ -112,6 +124,17 @@ pub fn run_case(c: &C06Case, n: u64) -> Verdict {
     let tree = cd.tree();
     c.tree.build(&tree);
     let _ = std::os::unix::fs::symlink(".", tree.join("L"));
+    if c.twin_named {
+        for (k, r) in c.roots.iter().enumerate() {
+            let d = tree.join(&r.base);
+            if std::fs::create_dir_all(&d).is_ok() {
+                let _ = std::fs::write(d.join("tw0"), class_bytes(60, 25));
+                if k % 2 == 0 {
+                    let _ = std::fs::write(d.join("tw1"), class_bytes(61, 26));
+                }
+            }
+        }
+    }
     let roots: Vec<&RootArg> = c.roots.iter().filter(|r| tree.join(&r.base).is_dir()).collect();
     if roots.is_empty() {
         return Verdict::Discard("no-roots".into());
@@ -152,6 +175,9 @@ pub fn run_case(c: &C06Case, n: u64) -> Verdict {
         }
         if c.opts.match_links {
             s.push("match-links".into());
+        }
+        if c.twin_named {
+            s.push("roots-with-equal-last-name".into());
         }
         if c.opts.symbolic_links {
             s.push("symbolic-links".into());
